@@ -191,6 +191,12 @@ def to_rat(t, atom_norm=None):
             return Rat(Poly.atom(("pow", rat_term(to_rat(t[2][0], an)), ("q", 1, 2))))
         if t[1] in _ARITH_CALLS and len(t[2]) == 2:
             return to_rat(("bin", _ARITH_CALLS[t[1]], t[2][0], t[2][1]), an)
+    if tag == "call" and t[1] == G("numpy.arange") and len(t[2]) == 2 and not t[3]:
+        a, b = to_rat(t[2][0], an), to_rat(t[2][1], an)
+        n = b - a
+        return Rat(Poly.atom(("call", G("numpy.arange"), (rat_term(n),), ()))) + a
+    if tag == "call" and t[1] == G("numpy.arange") and len(t[2]) == 1 and not t[3]:
+        return Rat(Poly.atom(("call", G("numpy.arange"), (rat_term(to_rat(t[2][0], an)),), ())))
     return Rat(Poly.atom(an_atom(t, an)))
 
 
@@ -221,6 +227,8 @@ def is_arith(t):
     if t[0] == "bin" and t[1] in ("+", "-", "*", "/", "**"):
         return True
     if t[0] == "call" and (t[1] in (_SQRT, _SQUARE) or t[1] in _ARITH_CALLS) and not t[3]:
+        return True
+    if t[0] == "call" and t[1] == G("numpy.arange") and len(t[2]) in (1, 2) and not t[3]:
         return True
     return False
 
